@@ -34,7 +34,7 @@ ASSUMPTIONS = [
     'report text is compared verbatim with str() of the library result under the same report/ascii settings',
 ]
 REQUIRED_MONITORS = ['cli:discover', 'cli:verify', 'cli:detect', 'cli:bad_invocation', 'closure:cli', 'runs:real_crosscheck',
-                     'fs:leftovers_checked', 'cli:stdin_input', 'cli:stdout_output']
+                     'fs:leftovers_checked', 'cli:stdin_input', 'cli:stdout_output', 'session:command_compared']
 REQUIRED_CLASSES = ['fmt=csv', 'fmt=parquet', 'bad=missing-input', 'bad=missing-constraints', 'bad=unknown-flag',
                     'bad=contradictory']
 KINDS = ['int64', 'float64', 'bool', 'dt_s', 'dt_ns', 'str_obj', 'Int64']
@@ -119,7 +119,8 @@ def run_file(ctx, spec, idx):
         return c
 
     def crosscheck(args, res, stdin=None, files=()):
-        if (idx * 50 + n_inv[0]) % ctx.params['real_every'] == 0:
+        ctx.c17_invocations = getattr(ctx, 'c17_invocations', 0) + 1
+        if ctx.c17_invocations % ctx.params['real_every'] == 7 % ctx.params['real_every']:
             snap = {f: open(os.path.join(d, f), 'rb').read() if os.path.exists(os.path.join(d, f)) else None for f in files}
             for f in files:
                 if os.path.exists(os.path.join(d, f)):
@@ -224,6 +225,7 @@ def run_file(ctx, spec, idx):
     with open(os.path.join(d, 'pert.tdda'), 'w') as f:
         json.dump(pert, f)
     # ---------------- verify with flags -----------------------------------------------
+    solo = []            # what each command gave as a process of its own (for the session run below)
     for _ in range(2):
         flags = []
         kw = {'report': 'all', 'ascii': False}
@@ -268,6 +270,7 @@ def run_file(ctx, spec, idx):
             rec.violation('verify_report_differs', {'case': case, 'mech': dict(mech, counts_equal=bool(m1) and (int(m1.group(1)), int(m1.group(2))) == (v.passes, v.failures)),
                                                     'facts': {'cli': res.out[-600:], 'library': want_out[-600:]}})
         crosscheck(args, res)
+        solo.append({'args': args, 'outfile': None, 'bytes': None, 'stdout': res.out, 'status': res.status})
     # ---------------- detect with flags --------------------------------------------------
     for _ in range(3):
         flags = []
@@ -360,6 +363,68 @@ def run_file(ctx, spec, idx):
             if res.out != lib_stdout + str(v) + '\n':
                 rec.violation('detect_report_differs', {'case': case, 'mech': mech, 'facts': {'cli': res.out[-400:], 'library': str(v)[-400:]}})
         crosscheck(args, res, files=[outname] if ofmt != 'dash' else [])
+        cp = os.path.join(d, outname)
+        solo.append({'args': args, 'outfile': None if ofmt == 'dash' else outname,
+                     'bytes': open(cp, 'rb').read() if ofmt != 'dash' and os.path.exists(cp) else None,
+                     'stdout': res.out, 'status': res.status})
+    # ---------------- the same commands as ONE session: several console.main_with_argv calls in one process --
+    # (the console entry point is also an in-process API; what a command writes must not depend on the
+    # commands that ran before it in that process)
+    if len(solo) >= 2 and idx % 2 == 0:
+        order = list(range(len(solo)))
+        rng.shuffle(order)
+        sess = [solo[k] for k in order]
+        for f in ('det.csv', 'det.parquet'):
+            if os.path.exists(os.path.join(d, f)):
+                os.unlink(os.path.join(d, f))
+
+        def session():
+            import sys
+            from tdda.constraints import console
+            for k, c in enumerate(sess):
+                st = 0
+                try:
+                    sys.argv = ['tdda'] + c['args']
+                    console.main_with_argv(['tdda'] + c['args'])
+                except SystemExit as e:
+                    st = e.code if isinstance(e.code, int) else (0 if e.code is None else 1)
+                except BaseException as e:
+                    st = 'raised ' + type(e).__name__
+                sys.stdout.flush()
+                if c['outfile'] and os.path.exists(c['outfile']):
+                    os.replace(c['outfile'], 'sess_%d.out' % k)
+                print('\x1e%d\x1f%s\x1e' % (k, st))
+                sys.stdout.flush()
+            return 0
+        res = forkserver.fork_run(session, ['tdda'], cwd=d, scratch=ctx.scratch)
+        rec.event('session:run')
+        parts = re.split('\x1e(\\d+)\x1f([^\x1e]*)\x1e\n', res.out)
+        case = {'spec': spec, 'argv': [c['args'] for c in sess], 'what': 'session'}
+        rec.case(case, nontrivial=True, cls=[fmtcls, ('what=session',)])
+        if res.status != 0 or len(parts) != 3 * len(sess) + 1:
+            rec.violation('session_failed', {'case': case, 'mech': {'status': res.status}, 'facts': {'stderr': res.err[-500:], 'stdout': res.out[-300:]}})
+        else:
+            for k, c in enumerate(sess):
+                out_k, st_k = parts[3 * k], parts[3 * k + 2]
+                sp = os.path.join(d, 'sess_%d.out' % k)
+                got = open(sp, 'rb').read() if os.path.exists(sp) else None
+                if got is not None and c['outfile'] and c['outfile'].endswith('.parquet') and c['bytes'] is not None and got != c['bytes']:
+                    import pandas as pd
+                    a, b = pd.read_parquet(io.BytesIO(got)), pd.read_parquet(io.BytesIO(c['bytes']))
+                    if list(a.columns) == list(b.columns) and a.equals(b):
+                        got = c['bytes']
+                rec.event('session:command_compared')
+                if st_k != str(c['status']) or out_k != c['stdout'] or got != c['bytes']:
+                    rec.violation('command_in_a_session_differs_from_the_command_alone',
+                                  {'case': case, 'mech': {'cmd': c['args'][0], 'position': 'first' if k == 0 else 'later',
+                                                          'differs': [n for n, x, y in (('status', st_k, str(c['status'])), ('stdout', out_k, c['stdout']),
+                                                                                        ('file', got, c['bytes'])) if x != y]},
+                                   'facts': {'command': c['args'], 'before_it': [x['args'] for x in sess[:k]],
+                                             'alone': [c['status'], c['stdout'][-300:], (c['bytes'] or b'')[:300].decode('utf-8', 'replace')],
+                                             'in_session': [st_k, out_k[-300:], (got or b'')[:300].decode('utf-8', 'replace')]}})
+        for f in os.listdir(d):
+            if f.startswith('sess_'):
+                os.unlink(os.path.join(d, f))
     # ---------------- bad invocations -------------------------------------------------------
     bads = [
         ('missing-input', ['discover', 'nosuch.' + spec['fmt'], 'out_bad.tdda'], ['out_bad.tdda']),
